@@ -51,6 +51,8 @@ def strategy():
         'front_mode': st.sampled_from(WMODES),
         'decoy_methods': st.sampled_from([None, None, ['POST'], ['GET'], ['PUT', 'DELETE']]),
         'prime': st.sampled_from([None, None, 'PATCH', 'DELETE', 'PUT', 'OPTIONS', 'GET', 'POST']),
+        # the application (and the inner one) has already served a request when the route under test is added to it
+        'late': st.sampled_from([False, False, True]),
         'segs': st.lists(seg, min_size=3, max_size=3),
         'nmulti': st.integers(1, 3),
         'mutation': st.sampled_from(MUTATIONS),
@@ -116,13 +118,18 @@ def build(case):
             front_route = Route(front_pattern, make_ep(2, names, nb=True), slash_mode=case.get('front_mode') or 'rewrite')
         else:
             front_route = Route(front_pattern, make_ep(2, names, nb=True))
+    def warm(a):
+        if case.get('late'):
+            call_environ(a, make_environ('/zq-warm-up', 'GET', ''))
     if emb:
         inner = Application(slash_mode=emb['inner_mode'])
+        warm(inner)
         inner.add(route, inherit_slashes=case['inherit'])
         m1 = emb['inner_mode'] if case['inherit'] else case['route_mode']
         app = Application(slash_mode=case['app_mode'])
         if front_route:
             app.add(front_route, inherit_slashes=(front != 'same-nb'))
+        warm(app)
         app.add(SubApplication(emb['prefix'], inner, inherit_slashes=emb['inherit_sub']))
         mode = case['app_mode'] if emb['inherit_sub'] else m1
         prefix = emb['prefix'].rstrip('/')
@@ -130,6 +137,7 @@ def build(case):
         app = Application(slash_mode=case['app_mode'])
         if front_route:
             app.add(front_route, inherit_slashes=(front != 'same-nb'))
+        warm(app)
         app.add(route, inherit_slashes=case['inherit'])
         mode = case['app_mode'] if case['inherit'] else case['route_mode']
         prefix = ''
